@@ -10,6 +10,7 @@ from wbgen import Gen, PI
 from worlds import line_world
 
 ALL = [[1, 0, 0], [2, 0, 0], [2, 1, 0], [2, 2, 0], [2, 3, 0], [3, 0, 1], [4, 0, 0], [5, 0, 0]]
+NOGRAINS = [[1, 0, 0], [2, 0, 0], [2, 1, 0], [2, 2, 0], [2, 3, 0], [4, 0, 0], [5, 0, 0]]
 KINDS = ("temperature models", "composition models", "grains models", "velocity models")
 
 
@@ -69,6 +70,21 @@ def run(chk):
         sph = rng.random() < 0.3
         wj, sph, f = line_world(rng, spherical=sph, straight=rng.random() < 0.2, uniform_sections=rng.random() < 0.3,
                                 allow_mass_conserving=False, extra_area=0.2)
+        if wi % 2 == 0:
+            # aimed at the inheritance search: models of one kind on the feature, of another kind on a section entry,
+            # segments that declare nothing; and at the interpolation of two-valued top truncations between sections
+            fault = f["model"] == "fault"
+            for sg in f["segments"] + [x for sc in f.get("sections", []) for x in sc["segments"]]:
+                for k in KINDS:
+                    if rng.random() < 0.8:
+                        sg.pop(k, None)
+                if not fault and rng.random() < 0.6:
+                    sg["top truncation"] = [float(round(rng.uniform(-2e4, 2e4))), float(round(rng.uniform(0, 8e4)))]
+            f.update(g.slab_models(f["model"], 1.0, False))
+            for sc in f.get("sections", []):
+                for k in KINDS:
+                    sc.pop(k, None)
+                sc.update(g.slab_models(f["model"], 0.5, False))
         wa, wb = explicit_models(wj), explicit_sections(wj)
         wc = explicit_sections(wa)
         # locality: override one coordinate
@@ -81,13 +97,15 @@ def run(chk):
         if rng.random() < 0.5:
             newsec.update(g.slab_models(f["model"], 0.6, False))
         fd["sections"] = [s for s in fd.get("sections", []) if s["coordinate"] != ci] + [newsec]
-        slots = [cs.add_world(w, model=False) for w in (wj, wa, wb, wc, wd)]
+        slots = [cs.add_world(w, model=(k_ in (0, 4))) for k_, w in enumerate((wj, wa, wb, wc, wd))]
         cr = [((c[0] * PI) * (1 / 180.0), (c[1] * PI) * (1 / 180.0)) if sph else (float(c[0]), float(c[1])) for c in f["coordinates"]]
         for qi in range(20):
             q, d = line_query(rng, wj, sph, f, spread=rng.choice([0.3, 0.6, 1.2]))
             if d < 0:
                 continue
             ids = [cs.p3(s, q, d, ALL) for s in slots]
+            for s_ in (slots[0], slots[4]):
+                cs.p3(s_, q, d, NOGRAINS)
             # the interval of the foot
             if sph:
                 rr = math.sqrt(q[0] ** 2 + q[1] ** 2 + q[2] ** 2)
@@ -97,8 +115,10 @@ def run(chk):
             ib = cs.raw("bezcp %s %d %s %s %s" % ("s" if sph else "c", len(cr), " ".join("%s %s" % (common.fhex(c[0]), common.fhex(c[1])) for c in cr),
                                                   common.fhex(nq[0]), common.fhex(nq[1])), "let () = out_str \"skip\"", {"kind": "foot"})
             plan.append((ids, ib, ci, f["name"]))
-    impl, _ = cs.run(model=False)
+    impl, model = cs.run()
     chk.evaluations = len(impl)
+    # the base and the overridden world against SlabFeature.v (whose table is built by SlabLayout.table), bit for bit
+    bad = chk.correspond(impl, model, cs, max_ulp=0)
     viol = []
     labels = ["", "inherited models written into every segment", "default segments repeated as a section for every coordinate",
               "both re-layouts"]
@@ -142,4 +162,9 @@ def run(chk):
     for what, d in viol[:5]:
         chk.violation(what, d)
     chk.counters["violating queries"] = len(viol)
+    if bad and not viol:
+        for i in bad[:3]:
+            dsc = cs.describe(i)
+            dsc["impl"], dsc["model"] = impl[i], model[i]
+            chk.violation("correspondence SlabLayout.v/SlabFeature.v <-> implementation broken", dsc, found_input=False)
     cs.cleanup()
